@@ -43,7 +43,7 @@ class PathOutcome:
         self.__dict__.update(kw)
 
 
-def run_path(eng, pre, opcode, block_n=None, addr=0x1000, sym_addr=False, known=()):
+def run_path(eng, pre, opcode, block_n=None, addr=0x1000, sym_addr=False, known=(), branch_check=False):
     """Execute one path.  Returns PathOutcome; obligations go to eng.run.obligations."""
     EMU, OPC, asm_str = _mods()
     RN = EMU.RegisterName
@@ -140,6 +140,8 @@ def run_path(eng, pre, opcode, block_n=None, addr=0x1000, sym_addr=False, known=
     eng.watch_cells.append((sm.init, z3.BitVec("k!frame", W)))
 
     def ob(name, cond):
+        if branch_check and name.startswith("reg:") and name not in ("reg:PC", "reg:S"):
+            return True      # C05 runs: data-path registers are C04's business
         r = eng.prove(name, cond, detail=text)
         if r is False and known:
             o = eng.run.obligations[-1]
@@ -211,7 +213,67 @@ def run_path(eng, pre, opcode, block_n=None, addr=0x1000, sym_addr=False, known=
             continue
         ob("reads", z3.Or([ra == x for x in allowed]))
     res.free = [f if isinstance(f, str) else f[0] for f in free]
+    if branch_check:
+        _branch_obligations(eng, ev, st, T(at), length, final["PC"], text)
     return res
+
+
+def _branch_obligations(eng, ev, st, at, length, pc_final, text):
+    """C05: static branch facts (InstructionInfo filled by the real analyze()) vs the PC the
+    real IL evaluation reached."""
+    from binaryninja.enums import BranchType as BT
+    info = ev.instruction_info
+    M20 = 0xFFFFF
+    nxt = (at + length) & M20
+    eng.prove("info-length", z3.BoolVal(True) if not core.is_sym(info.length) and info.length == length
+              else T(info.length) == length, detail=text)
+    branches = list(getattr(info, "branches", []) or [])
+    kinds = []
+    targets = {}
+    for b in branches:
+        bt = getattr(b, "type", None)
+        tgt = getattr(b, "target", None)
+        if bt is None and isinstance(b, tuple):
+            bt, tgt = b[0], (b[1] if len(b) > 1 else None)
+        kinds.append(bt)
+        targets.setdefault(bt, []).append(tgt)
+    taken = getattr(st, "taken", None)
+
+    def t20(x):
+        return T(x) & M20
+
+    if not branches:
+        if text.strip() == "IR":
+            # property C05: "a software interrupt counting as a call that returns there": the
+            # pushed resume address (checked by the 'mem' obligation against the spec) is next
+            eng.prove("software-interrupt-resume-address", st.rd(st.get("S") + 2, 3, log=False) & M20 == nxt, detail=text)
+            return
+        eng.prove("no-branch=>falls-through", pc_final == nxt, detail=text)
+        return
+    names = sorted(str(getattr(k, "name", k)) for k in kinds)
+    det = f"{text} branches={names}"
+    if BT.UnconditionalBranch in targets:
+        eng.prove("unconditional-target", pc_final == t20(targets[BT.UnconditionalBranch][0]), detail=det)
+    if BT.CallDestination in targets:
+        eng.prove("call-target", pc_final == t20(targets[BT.CallDestination][0]), detail=det)
+    if BT.TrueBranch in targets or BT.FalseBranch in targets:
+        if taken is None:
+            eng.prove("conditional-has-condition", z3.BoolVal(False), detail=det)
+        else:
+            if BT.TrueBranch in targets:
+                eng.prove("true-target", z3.Implies(taken, pc_final == t20(targets[BT.TrueBranch][0])), detail=det)
+            else:
+                eng.prove("true-target-reported", z3.BoolVal(False), detail=det)
+            if BT.FalseBranch in targets:
+                eng.prove("false-target", z3.Implies(z3.Not(taken), pc_final == t20(targets[BT.FalseBranch][0])), detail=det)
+                eng.prove("false-target-is-next", t20(targets[BT.FalseBranch][0]) == nxt, detail=det)
+            else:
+                eng.prove("false-target-reported", z3.BoolVal(False), detail=det)
+    resolved = {BT.UnconditionalBranch, BT.CallDestination, BT.TrueBranch, BT.FalseBranch}
+    if not (set(kinds) & resolved):
+        # only return / unresolved / indirect records: nothing to compare, but they must not be
+        # attached to an instruction that always falls through
+        eng.prove("unresolved-branch-can-leave", z3.BoolVal(eng.feasible(pc_final != nxt)), detail=det)
 
 
 def _stores(arr, base):
@@ -246,14 +308,14 @@ def _pairwise_mem(eng, sm, exp, text):
     return True
 
 
-def check_unit(pre, opcode, block_n=None, max_paths=6000, wall_s=600, sym_addr=False, known=()):
+def check_unit(pre, opcode, block_n=None, max_paths=6000, wall_s=600, sym_addr=False, known=(), branch_check=False):
     """Explore all paths of one work unit; returns a plain-dict report."""
     t0 = time.time()
     run = core.Run(max_paths=max_paths, wall_s=wall_s)
     status = "ok"
     err = None
     try:
-        core.explore(lambda eng: run_path(eng, pre, opcode, block_n, sym_addr=sym_addr, known=known), run=run)
+        core.explore(lambda eng: run_path(eng, pre, opcode, block_n, sym_addr=sym_addr, known=known, branch_check=branch_check), run=run)
     except core.Undecided as e:
         status, err = "undecided", str(e)
     except core.EngineError as e:
@@ -298,7 +360,8 @@ def unit_entry(unit):
     env.setup()
     return check_unit(unit.get("pre"), unit["opcode"], unit.get("block_n"),
                       max_paths=unit.get("max_paths", 8000), wall_s=unit.get("wall_s", 600),
-                      sym_addr=unit.get("sym_addr", False), known=unit.get("known", ()))
+                      sym_addr=unit.get("sym_addr", False), known=unit.get("known", ()),
+                      branch_check=unit.get("branch_check", False))
 
 
 # --------------------------------------------------------------------------- C07: history independence
